@@ -457,8 +457,12 @@ public:
             DenseSymMatProd<Scalar> Aop(gramA);
             DenseCholesky<Scalar> Bop(gramB);
 
+            // nev < ncv <= rows must hold: keep min(10, rows - 1) where it is legal, else 2 * nev capped by the pencil size
+            int ncv = (std::min)(10, int(gramA.rows()) - 1);
+            if (ncv <= m_nev)
+                ncv = (std::min)(int(gramA.rows()), 2 * m_nev);
             SymGEigsSolver<DenseSymMatProd<Scalar>, DenseCholesky<Scalar>, GEigsMode::Cholesky>
-                geigs(Aop, Bop, m_nev, (std::min)(10, int(gramA.rows()) - 1));
+                geigs(Aop, Bop, m_nev, ncv);
 
             geigs.init();
             geigs.compute(SortRule::SmallestAlge);
